@@ -23,6 +23,27 @@ class Ctx:
         self.tier = tier
         self.root = root
 
+    def borrow(self, fn, src_prefix: str, dst_prefix: str, *args) -> None:
+        """Run a rule of another property and take over the obligations whose rule name starts with src_prefix, renamed to
+        dst_prefix (shared mechanisms: one rule implementation, reported under the property that relies on it)."""
+        shadow = Check(self.chk.prop, self.chk.tier, self.repo.root)
+        real, self.chk = self.chk, shadow
+        try:
+            fn(self, *args)
+        finally:
+            self.chk = real
+        for o in shadow.obligations:
+            if not o["rule"].startswith(src_prefix):
+                continue
+            r = dst_prefix + o["rule"][len(src_prefix):]
+            if o["verdict"] == "discharged":
+                real.ok(r, o["construct"], o["fact"])
+            else:
+                real.bad(r, o["construct"], o["fact"], o.get("detail", ""), o.get("location", ""))
+        real.analysis_errors += shadow.analysis_errors
+        for u in shadow.functions_analysed:
+            real.functions_analysed.add(u) if isinstance(real.functions_analysed, set) else None
+
     def rule(self, fn, *args, **kw):
         """Run one rule; an anchor problem in it is recorded (fail-closed at the end) but does not hide the other rules' verdicts."""
         try:
